@@ -20,7 +20,7 @@ const MICROSECOND: u128 = 1_000;
 /// Sign           -> '-'
 /// Number         -> Digit+ ('.' Digit+)?
 /// Digit          -> '0' | '1' | '2' | '3' | '4' | '5' | '6' | '7' | '8' | '9'
-/// Unit           -> 'h' | 'm' | 's' | 'ms' | 'us' | 'ns'
+/// Unit           -> 'h' | 'm' | 's' | 'ms' | 'us' | 'µs' | 'ns'
 /// String         -> DurationString
 ///
 /// # Examples
@@ -92,6 +92,7 @@ fn parse_unit(i: &str) -> IResult<&str, Unit> {
     alt((
         map(tag("ms"), |_| Unit::Millisecond),
         map(tag("us"), |_| Unit::Microsecond),
+        map(tag("\u{b5}s"), |_| Unit::Microsecond),
         map(tag("ns"), |_| Unit::Nanosecond),
         map(char('h'), |_| Unit::Hour),
         map(char('m'), |_| Unit::Minute),
